@@ -25,10 +25,10 @@ WsTok == [k |-> "ws", s |-> <<32>>, v |-> <<>>, n |-> <<>>, d |-> <<>>, w |-> ""
 PunctTok(k, c) == [k |-> k, s |-> <<c>>, v |-> <<>>, n |-> <<>>, d |-> <<>>, w |-> "", a |-> <<>>]
 FuncTok(w, args) == [k |-> "func", s |-> <<>>, v |-> <<>>, n |-> <<>>, d |-> <<>>, w |-> w, a |-> args]
 
-Slot(fi, j) == LET F == Fams[fi] IN IF F.kind \in {"list", "sel"} THEN F.slots[1] ELSE F.slots[j]
+Slot(fi, j) == LET F == Fams[fi] IN IF F.kind \in {"list", "sel", "clist"} THEN F.slots[1] ELSE F.slots[j]
 Entry(fi, s, j) == Slot(fi, j)[s[j]]
-MaxLen(fi) == LET F == Fams[fi] IN IF F.kind \in {"list", "sel"} THEN F.max ELSE Len(F.slots)
-Complete(fi, s) == LET F == Fams[fi] IN IF F.kind \in {"list", "sel"} THEN Len(s) >= F.min ELSE Len(s) = Len(F.slots)
+MaxLen(fi) == LET F == Fams[fi] IN IF F.kind \in {"list", "sel", "clist"} THEN F.max ELSE Len(F.slots)
+Complete(fi, s) == LET F == Fams[fi] IN IF F.kind \in {"list", "sel", "clist"} THEN Len(s) >= F.min ELSE Len(s) = Len(F.slots)
 
 (* the token list a state stands for *)
 JoinWs(tl) == Flatten([i \in 1..Len(tl) |-> IF i = 1 THEN tl[i] ELSE <<WsTok>> \o tl[i]])
@@ -43,6 +43,7 @@ Toks(fi, s) ==
   IN
   CASE F.kind = "list" -> JoinWs([j \in 1..Len(s) |-> E(j).toks])
     [] F.kind = "sel" -> Flatten([j \in 1..Len(s) |-> E(j).toks])
+    [] F.kind = "clist" -> Flatten([j \in 1..Len(s) |-> IF j = 1 THEN E(j).toks ELSE <<PunctTok("comma", 44)>> \o E(j).toks])
     [] F.kind = "func" ->
          LET n == IF Len(E(4).toks) = 0 THEN 3 ELSE 4
              sepc(j) == IF F.sep = "comma" THEN <<PunctTok("comma", 44)>>
